@@ -302,7 +302,7 @@ theorem sweep_err_spec {s s1 : St} {i : Nat} (h : sweep s = (s1, .err i)) (hp : 
 inductive LoopTrace (n : Nat) : List Ev → List Conn → Prop
   | nil : LoopTrace n [] []
   | cons {sw rest : List Ev} {cs : List Conn} (c : Conn) (inc : Nat) :
-      ReadySweep n sw → LoopTrace n rest cs → LoopTrace n (sw ++ .call c.2 inc c :: rest) (c :: cs)
+      ReadySweep n sw → c.2 < n → LoopTrace n rest cs → LoopTrace n (sw ++ .call c.2 inc c :: rest) (c :: cs)
 
 /-- what the `Available` loop leaves untouched -/
 def core2 (s : St) := (s.n, s.timeout, s.state, s.chanOpen, s.stopQ, s.raw, s.now, s.sent, s.nextConn, s.nextStop, s.finished, s.stopWaker)
@@ -418,7 +418,7 @@ theorem availLoop_spec (q : List Conn) : ∀ (s : St), AllPolled s → LoopSpec 
           refine { core := k1.trans hc2, inc := hsi.trans k2, shape := ?_, restart := ?_, polled := k5, fault := fun h => (k6 h).trans hfl, closed := k7 }
           · refine ⟨evs ++ .call c.2 (s1.svc c.2).inc c :: tr, c :: cs, last, ?_, ?_, ?_, ?_, g5, g6, ?_⟩
             · rw [g1]; simp [d]
-            · exact .cons c _ (f rfl) (hn ▸ g2)
+            · exact .cons c _ (f rfl) (hn ▸ htok) (hn ▸ g2)
             · simp at g3 ⊢; exact g3
             · rw [g4]; simp [hinf]
             · intro h; have := g7 h; simpa [hn] using this
@@ -546,7 +546,7 @@ theorem handled_PR {m : List Ev} (h : ∀ e ∈ m, e.isPR = true) : handled m = 
 theorem LoopTrace.handled {n : Nat} {tr : List Ev} {cs : List Conn} (h : LoopTrace n tr cs) : handled tr = cs := by
   induction h with
   | nil => rfl
-  | cons c inc hsw _ ih =>
+  | cons c inc hsw _ _ ih =>
     have : ActixNet.Worker.handled _ = [] := handled_PR (m := _) (fun e he => by
       obtain ⟨i, hi, rfl⟩ := List.getElem_of_mem he
       obtain ⟨inc', h3⟩ := hsw.2 i (by rw [← hsw.1]; exact hi)
@@ -566,7 +566,7 @@ theorem LoopTrace.noErrCreate {n : Nat} {tr : List Ev} {cs : List Conn} (h : Loo
     ∀ e ∈ tr, e.isErr = false ∧ e.isCreate = false := by
   induction h with
   | nil => simp
-  | cons c inc hsw _ ih =>
+  | cons c inc hsw _ _ ih =>
     intro e he; simp at he
     rcases he with he | rfl | he
     · exact hsw.noErrCreate e he
@@ -577,7 +577,7 @@ theorem LoopTrace.guarded {n : Nat} {tr : List Ev} {cs : List Conn} (h : LoopTra
     ∀ l, Guarded n l → Guarded n (l ++ tr) := by
   induction h with
   | nil => intro l hl; simpa using hl
-  | cons c inc hsw _ ih =>
+  | cons c inc hsw _ _ ih =>
     intro l hl
     have := ih _ (hl.append_sweep_call hsw c.2 inc c)
     simpa using this
@@ -1292,7 +1292,7 @@ theorem callsOf_PR {m : List Ev} (h : ∀ e ∈ m, e.isPR = true) : callsOf m = 
 theorem LoopTrace.callsOf {n : Nat} {tr : List Ev} {cs : List Conn} (h : LoopTrace n tr cs) : callsOf tr = cs := by
   induction h with
   | nil => rfl
-  | cons c inc hsw _ ih =>
+  | cons c inc hsw _ _ ih =>
     have h0 : ActixNet.Worker.callsOf _ = [] := callsOf_PR (m := _) (fun e he => by
       obtain ⟨i, hi, rfl⟩ := List.getElem_of_mem he
       obtain ⟨inc', h3⟩ := hsw.2 i (by rw [← hsw.1]; exact hi)
@@ -2647,6 +2647,365 @@ theorem fuel_enough (f : Nat) : ∀ (s : St), Good s → s.finished = false → 
       obtain ⟨g1, g2⟩ := hg.body hf
       exact ih _ g1 (g2 hb) (body_nofuel hn) (by have := body_decreases hg hf hb; omega)
     · exact body_nofuel hn
+
+
+
+
+/-! ### C01, worker side: routing by token, distinct ids, nothing leaks -/
+
+/-- a `call` goes to the service registered for the connection's listener token, which exists -/
+def CallOK (n : Nat) : Ev → Prop
+  | .call tok _ c => tok = c.2 ∧ tok < n
+  | _ => True
+
+theorem callOK_of_not_call {n : Nat} {e : Ev} (h : e.isCall = false) : CallOK n e := by
+  cases e <;> simp [Ev.isCall] at h <;> trivial
+
+theorem callsOf_nil_nocall {m : List Ev} (h : callsOf m = []) : ∀ e ∈ m, e.isCall = false := by
+  intro e he
+  simp only [callsOf, List.filterMap_eq_nil_iff] at h
+  have := h e he
+  cases e <;> simp_all [Ev.isCall]
+
+theorem LoopTrace.callOK {n : Nat} {tr : List Ev} {cs : List Conn} (h : LoopTrace n tr cs) : ∀ e ∈ tr, CallOK n e := by
+  induction h with
+  | nil => simp
+  | cons c inc hsw hlt _ ih =>
+    intro e he; simp only [List.mem_append, List.mem_cons] at he
+    rcases he with he | rfl | he
+    · obtain ⟨i, hi, rfl⟩ := List.getElem_of_mem he
+      obtain ⟨inc', h3⟩ := hsw.2 i (by rw [← hsw.1]; exact hi)
+      rw [List.getElem?_eq_getElem hi] at h3
+      simp at h3; rw [h3]; trivial
+    · exact ⟨rfl, hlt⟩
+    · exact ih e he
+
+/-- what no part of `poll` touches: the record of what was sent -/
+def core5 (s : St) := (s.n, s.sent, s.nextConn)
+
+/-- the C01 (worker side) invariant -/
+structure More (s : St) : Prop where
+  calls : ∀ e ∈ s.log, CallOK s.n e
+  ids : s.sent.map (·.1) = List.range s.nextConn
+  finq : s.finished = true → s.queue = []
+
+/-- one piece of `poll`: appends only well-routed calls, leaves the sent record alone, and if it finishes the channel is empty -/
+structure Piece (s s' : St) : Prop where
+  evs : ∃ evs, s'.log = s.log ++ evs ∧ ∀ e ∈ evs, CallOK s.n e
+  c5 : core5 s' = core5 s
+  finq : s'.finished = true → s.finished = false → s'.queue = []
+
+theorem Piece.refl (s : St) : Piece s s := ⟨⟨[], by simp, by simp⟩, rfl, fun h1 h2 => by rw [h2] at h1; cases h1⟩
+
+theorem Piece.trans {a b c : St} (h1 : Piece a b) (h2 : Piece b c) (hb : b.finished = a.finished) : Piece a c := by
+  obtain ⟨e1, l1, p1⟩ := h1.evs
+  obtain ⟨e2, l2, p2⟩ := h2.evs
+  have hn : b.n = a.n := congrArg (·.1) h1.c5
+  refine ⟨⟨e1 ++ e2, by rw [l2, l1]; simp, ?_⟩, h2.c5.trans h1.c5, fun hc ha => h2.finq hc (hb.trans ha)⟩
+  intro e he; simp only [List.mem_append] at he
+  rcases he with he | he
+  · exact p1 e he
+  · exact hn ▸ p2 e he
+
+theorem More.piece {s s' : St} (h : More s) (p : Piece s s') (hs : s.finished = false) : More s' := by
+  obtain ⟨evs, l, pe⟩ := p.evs
+  have hc := p.c5
+  simp only [core5, Prod.mk.injEq] at hc
+  refine ⟨?_, by rw [hc.2.1, hc.2.2]; exact h.ids, fun hf => p.finq hf hs⟩
+  intro e he; rw [l] at he; simp only [List.mem_append] at he
+  rw [hc.1]
+  rcases he with he | he
+  · exact h.calls e he
+  · exact pe e he
+
+theorem Piece.of_nocall {s s' : St} {evs : List Ev} (hl : s'.log = s.log ++ evs) (hnc : ∀ e ∈ evs, e.isCall = false)
+    (hc : core5 s' = core5 s) (hf : s'.finished = s.finished) : Piece s s' :=
+  ⟨⟨evs, hl, fun e he => callOK_of_not_call (hnc e he)⟩, hc, fun h1 h2 => by rw [hf, h2] at h1; cases h1⟩
+
+theorem Piece.of_finish (s : St) (b : Bool) : Piece s (finish s b) := by
+  obtain ⟨evs, hl, hc⟩ := finish_quiet s b
+  exact ⟨⟨evs, hl, fun e he => callOK_of_not_call (callsOf_nil_nocall hc e he)⟩, rfl, fun _ _ => rfl⟩
+
+theorem Piece.of_stopPhase (s : St) : Piece s (stopPhase s).1 := by
+  cases hq : s.stopQ with
+  | nil => rw [stopPhase_nil hq]; exact Piece.of_nocall (evs := []) (by simp) (by simp) rfl rfl
+  | cons a rest =>
+    obtain ⟨k, g⟩ := a
+    by_cases h0 : s.raw = 0
+    · rw [stopPhase_underflow hq h0]
+      exact Piece.of_nocall (evs := [.replyGone k]) rfl (by intro e he; simp at he; subst he; rfl) rfl rfl
+    · by_cases h1 : Src.wcTotal s.raw = 0
+      · rw [stopPhase_idle hq h0 h1]
+        exact (Piece.of_nocall (s := s) (s' := emit { s with stopQ := rest } [.reply k true]) (evs := [.reply k true]) rfl
+          (by intro e he; simp at he; subst he; rfl) rfl rfl).trans (Piece.of_finish _ _) rfl
+      · cases g with
+        | false =>
+          rw [stopPhase_forced hq h0 h1]
+          exact (Piece.of_nocall (s := s) (s' := emit (shutdownSvcs { s with stopQ := rest } true) [.reply k false]) (evs := [.reply k false]) rfl
+            (by intro e he; simp at he; subst he; rfl) rfl rfl).trans (Piece.of_finish _ _) rfl
+        | true =>
+          rw [stopPhase_graceful hq h0 h1]
+          refine Piece.of_nocall (evs := stateTx s.state ++ [.armTimer (s.now + Src.wkTickFirstMs)]) rfl ?_ rfl rfl
+          intro e he; simp only [List.mem_append, List.mem_singleton] at he
+          rcases he with he | rfl
+          · exact (stateTx_plain _ e he).1
+          · rfl
+
+theorem drained_finished (s : St) : (drained s).finished = s.finished := by
+  have : (release s s.queue).finished = s.finished := by
+    obtain ⟨hc, _⟩ := release_spec s.queue s
+    simp only [core3, Prod.mk.injEq] at hc; exact hc.2.2.2.2.2.2.2.2.2.2.2.1
+  unfold drained; split <;> exact this
+
+theorem Piece.of_shutdownArm (s : St) (t sf tx : Nat) : Piece s (shutdownArm s t sf tx) := by
+  obtain ⟨hc, evs, hl, hcalls⟩ := shutdownArm_quiet s t sf tx
+  simp only [core4, Prod.mk.injEq] at hc
+  refine ⟨⟨evs, hl, fun e he => callOK_of_not_call (callsOf_nil_nocall hcalls e he)⟩, ?_, ?_⟩
+  · simp only [core5, Prod.mk.injEq]; exact ⟨hc.1, hc.2.2.2.2.2.1, hc.2.2.2.2.2.2.1⟩
+  · intro hfin hs
+    have hrf : (release s s.queue).finished = s.finished := by
+      obtain ⟨h3, _⟩ := release_spec s.queue s
+      simp only [core3, Prod.mk.injEq] at h3; exact h3.2.2.2.2.2.2.2.2.2.2.2.1
+    have hdf := drained_finished s
+    cases hf : (release s s.queue).fault.isSome with
+    | true => rw [shutdownArm_fault t sf tx hf] at hfin; rw [hrf, hs] at hfin; cases hfin
+    | false =>
+      by_cases c1 : (drained s).now < t
+      · rw [shutdownArm_pending sf tx hf c1] at hfin; rw [hdf, hs] at hfin; cases hfin
+      · by_cases c2 : (drained s).raw = 0
+        · rw [shutdownArm_underflow sf tx hf c1 c2] at hfin
+          have : (drained s).finished = true := hfin
+          rw [hdf, hs] at this; cases this
+        · by_cases c3 : Src.wcTotal (drained s).raw = 0
+          · rw [shutdownArm_true sf tx hf c1 c2 c3]; rfl
+          · cases c4 : Src.wkTimedOut ((drained s).now - sf) (drained s).timeout with
+            | true => rw [shutdownArm_false tx hf c1 c2 c3 c4]; rfl
+            | false =>
+              rw [shutdownArm_rearm tx hf c1 c2 c3 c4] at hfin
+              have : (drained s).finished = true := hfin
+              rw [hdf, hs] at this; cases this
+
+theorem Piece.of_sweep {s s1 : St} {r : Sweep} (h : sweep s = (s1, r)) : Piece s s1 := by
+  have hc := sweep_n h
+  simp only [core, Prod.mk.injEq] at hc
+  obtain ⟨c1, c2, c3, c4, c5, c6, c7, c8, c9, c10, c11, c12, c13, c14, c15, c16⟩ := hc
+  have hc5 : core5 s1 = core5 s := by simp only [core5, Prod.mk.injEq]; exact ⟨c1, c10, c11⟩
+  unfold ActixNet.Worker.sweep at h
+  cases r with
+  | ok b =>
+    have := sweepFrom_ok s.n s 0 true b (by rw [h])
+    rw [h] at this
+    obtain ⟨evs, e1, e2⟩ := this
+    exact Piece.of_nocall e1 (fun e he => by have := (e2 e he).1; cases e <;> simp_all [Ev.isPR, Ev.isCall]) hc5 c13
+  | err i =>
+    have := sweepFrom_err_spec s.n s 0 true i (by rw [h])
+    rw [h] at this
+    obtain ⟨_, _, _, _, evs, inc, e1, e2⟩ := this
+    refine Piece.of_nocall (evs := evs ++ [.pollReady i inc .err]) (by rw [← List.append_assoc]; exact e1) ?_ hc5 c13
+    intro e he; simp only [List.mem_append, List.mem_singleton] at he
+    rcases he with he | rfl
+    · have := (e2 e he).1; cases e <;> simp_all [Ev.isPR, Ev.isCall]
+    · rfl
+
+theorem Piece.of_restartService (s : St) (i : Nat) : Piece s (restartService s i) :=
+  Piece.of_nocall (evs := [.createService i]) rfl (by intro e he; simp at he; subst he; rfl) rfl rfl
+
+theorem Piece.of_availLoop {s : St} (hp : AllPolled s) : Piece s (availLoop s s.queue).1 := by
+  obtain ⟨k1, _, ⟨tr, cs, last, g1, g2, _, _, g5, g6, _⟩, _, _, _, _⟩ := availLoop_spec s.queue s hp
+  simp only [core2, Prod.mk.injEq] at k1
+  obtain ⟨c1, c2, c3, c4, c5, c6, c7, c8, c9, c10, c11, c12⟩ := k1
+  refine ⟨⟨tr ++ last, by rw [g1]; simp, ?_⟩, by simp only [core5, Prod.mk.injEq]; exact ⟨c1, c8, c9⟩, fun h1 h2 => by rw [c11, h2] at h1; cases h1⟩
+  intro e he; simp only [List.mem_append] at he
+  rcases he with he | he
+  · exact g2.callOK e he
+  · apply callOK_of_not_call
+    by_cases hr : ∃ i, (ActixNet.Worker.availLoop s s.queue).2 = .restart i
+    · obtain ⟨i, hi⟩ := hr
+      obtain ⟨evs, inc, e1, e2⟩ := g5 i hi
+      rw [e1] at he; simp only [List.mem_append, List.mem_singleton] at he
+      rcases he with he | rfl
+      · exact e2.nocall e he
+      · rfl
+    · exact (g6 (fun i hi => hr ⟨i, hi⟩)).nocall e he
+
+
+theorem Piece.of_closedArm (s : St) : Piece s (closedArm s).1 := by
+  rcases closedArm_cases s with ⟨_, _, e⟩ | ⟨_, _, e⟩ | ⟨_, e⟩ <;> rw [e]
+  · exact Piece.of_nocall (evs := []) (by simp) (by simp) rfl rfl
+  · exact Piece.of_finish s false
+  · exact Piece.of_stopPhase s
+
+theorem Piece.of_arm {s : St} (hg : Good s) (hf : s.finished = false) : Piece s (arm s).1 := by
+  have hsv := hg.svc
+  unfold SvcOK at hsv
+  rw [hf] at hsv; simp only [Bool.false_eq_true, false_or] at hsv
+  cases hst : s.state with
+  | unavailable =>
+    rcases hsw : sweep s with ⟨s1, r⟩
+    have hp := Piece.of_sweep hsw
+    have hfin : s1.finished = s.finished := by
+      have hc := sweep_n hsw; simp only [core, Prod.mk.injEq] at hc; exact hc.2.2.2.2.2.2.2.2.2.2.2.2.1
+    cases r with
+    | ok b => cases b with
+      | true =>
+        rw [arm_unavail_true hst hsw]
+        exact hp.trans (Piece.of_nocall (s := s1) (s' := { s1 with state := .available }) (evs := []) (by simp) (by simp) rfl rfl) hfin
+      | false => rw [arm_unavail_false hst hsw]; exact hp
+    | err i => rw [arm_unavail_err hst hsw]; exact hp.trans (Piece.of_restartService s1 i) hfin
+  | restarting tok fp fok sc =>
+    cases fp with
+    | succ k =>
+      rw [arm_restarting_pending hst]
+      exact Piece.of_nocall (evs := [.facPoll tok .pending]) rfl (by intro e he; simp at he; subst he; rfl) rfl rfl
+    | zero => cases fok with
+      | true =>
+        rw [arm_restarting_ok hst]
+        exact Piece.of_nocall (evs := [.facPoll tok .ok]) rfl (by intro e he; simp at he; subst he; rfl) rfl rfl
+      | false =>
+        rw [arm_restarting_err hst]
+        exact Piece.of_nocall (evs := [.facPoll tok .err]) rfl (by intro e he; simp at he; subst he; rfl) rfl rfl
+  | shutdown t sf tx => rw [arm_shutdown hst]; exact Piece.of_shutdownArm s t sf tx
+  | available =>
+    rw [hst] at hsv
+    have hp := Piece.of_availLoop hsv
+    have hc2 := availLoop_core2 s.queue s
+    rcases hal : availLoop s s.queue with ⟨s1, r⟩
+    rw [hal] at hp hc2
+    simp only [core2, Prod.mk.injEq] at hc2
+    have hfin : s1.finished = s.finished := hc2.2.2.2.2.2.2.2.2.2.2.1
+    cases r with
+    | pending => rw [arm_avail_pending hst hal]; exact hp
+    | fault => rw [arm_avail_fault hst hal]; exact hp
+    | toUnavailable =>
+      rw [arm_avail_unavail hst hal]
+      exact hp.trans (Piece.of_nocall (s := s1) (s' := { s1 with state := .unavailable }) (evs := []) (by simp) (by simp) rfl rfl) hfin
+    | restart i => rw [arm_avail_restart hst hal]; exact hp.trans (Piece.of_restartService s1 i) hfin
+    | closed => rw [arm_avail_closed hst hal]; exact hp.trans (Piece.of_closedArm s1) hfin
+
+theorem Piece.of_body {s : St} (hg : Good s) (hf : s.finished = false) : Piece s (body s).1 := by
+  unfold ActixNet.Worker.body
+  split
+  · exact Piece.of_stopPhase s
+  · rename_i hc
+    simp only [Bool.or_eq_true, not_or, Bool.not_eq_true] at hc
+    have hf1 := stopPhase_finished s hc.1
+    exact (Piece.of_stopPhase s).trans (Piece.of_arm hg.stopPhase (hf1.trans hf)) hf1
+
+theorem More.pollW (f : Nat) : ∀ (s : St), More s → Good s → s.finished = false → More (pollW f s) := by
+  induction f with
+  | zero => intro s h _ _; exact ⟨h.calls, h.ids, h.finq⟩
+  | succ f ih =>
+    intro s h hg hf
+    simp only [ActixNet.Worker.pollW]
+    obtain ⟨g1, g2⟩ := hg.body hf
+    have hm := h.piece (Piece.of_body hg hf) hf
+    split
+    · rename_i hb; exact ih _ hm g1 (g2 hb)
+    · exact hm
+
+theorem More.step {s : St} (h : More s) (op : Op) (hnp : ∀ fuel, op ≠ .poll fuel) : More (step s op).1 := by
+  cases op with
+  | poll fuel => exact absurd rfl (hnp fuel)
+  | pollY fuel acts => exact h
+  | conn tok =>
+    simp only [ActixNet.Worker.step]
+    split
+    · exact h
+    · split
+      · exact h
+      · rename_i hfin
+        refine ⟨h.calls, ?_, fun hf => absurd hf hfin⟩
+        show (s.sent ++ [(s.nextConn, tok)]).map (·.1) = List.range (s.nextConn + 1)
+        rw [List.map_append, h.ids, List.range_succ]; rfl
+  | send tok =>
+    simp only [ActixNet.Worker.step]
+    split
+    · exact h
+    · split
+      · exact h
+      · rename_i hfin
+        refine ⟨h.calls, ?_, fun hf => absurd hf hfin⟩
+        show (s.sent ++ [(s.nextConn, tok)]).map (·.1) = List.range (s.nextConn + 1)
+        rw [List.map_append, h.ids, List.range_succ]; rfl
+  | inc => simp only [ActixNet.Worker.step]; split <;> exact ⟨h.calls, h.ids, h.finq⟩
+  | closeChan => simp only [ActixNet.Worker.step]; split <;> exact ⟨h.calls, h.ids, h.finq⟩
+  | closeStop => simp only [ActixNet.Worker.step]; split <;> exact ⟨h.calls, h.ids, h.finq⟩
+  | advance ms => simp only [ActixNet.Worker.step]; split <;> exact ⟨h.calls, h.ids, h.finq⟩
+  | finish id =>
+    simp only [ActixNet.Worker.step]
+    split
+    · exact h
+    · split <;> exact ⟨h.calls, h.ids, h.finq⟩
+  | stop g =>
+    simp only [ActixNet.Worker.step]
+    split
+    · exact h
+    · split
+      · refine ⟨?_, h.ids, h.finq⟩
+        intro e he
+        have : e ∈ s.log ++ [Ev.replyGone s.nextStop] := he
+        simp only [List.mem_append, List.mem_singleton] at this
+        rcases this with h1 | rfl
+        · exact h.calls e h1
+        · trivial
+      · exact ⟨h.calls, h.ids, h.finq⟩
+
+theorem More.runEnv (acts : List EnvOp) : ∀ (s : St), More s → More (ActixNet.Worker.runEnv s acts).1 := by
+  induction acts with
+  | nil => intro s h; exact h
+  | cons a as ih =>
+    intro s h
+    exact ih _ (h.step a.toOp (by intro fuel; cases a <;> simp [EnvOp.toOp]))
+
+theorem More.stepY {s : St} (h : More s) (hg : Good s) (op : Op) : More (ActixNet.Worker.stepY s op).1 := by
+  have henter : ∀ {s : St}, More s → More (emit s [.enter]) := fun h =>
+    ⟨fun e he => by
+      have : e ∈ _ ++ [Ev.enter] := he
+      simp only [List.mem_append, List.mem_singleton] at this
+      rcases this with h1 | rfl
+      · exact h.calls e h1
+      · trivial, h.ids, h.finq⟩
+  have hgenter : Good (emit s [.enter]) := ⟨hg.svc, hg.lg.plain (s' := emit s [.enter]) [.enter] (by intro e he; simp at he; subst he; exact ⟨rfl, rfl, rfl, rfl⟩) rfl rfl rfl rfl⟩
+  cases op with
+  | poll fuel =>
+    simp only [ActixNet.Worker.stepY, ActixNet.Worker.step]
+    split
+    · exact h
+    · rename_i hc
+      simp only [Bool.or_eq_true, not_or, Bool.not_eq_true] at hc
+      exact More.pollW fuel _ (henter h) hgenter hc.2
+  | pollY fuel acts =>
+    simp only [ActixNet.Worker.stepY]
+    split
+    · exact h
+    · rename_i hc
+      simp only [Bool.or_eq_true, not_or, Bool.not_eq_true] at hc
+      have hf0 : (emit s [.enter]).finished = false := hc.2
+      unfold ActixNet.Worker.pollY
+      have hm1 := (henter h).piece (Piece.of_stopPhase _) hf0
+      split
+      · exact hm1
+      · rename_i hc2
+        simp only [Bool.or_eq_true, not_or, Bool.not_eq_true] at hc2
+        have hf1 : (ActixNet.Worker.stopPhase (emit s [.enter])).1.finished = false := (stopPhase_finished _ hc2.1).trans hf0
+        have hm2 := More.runEnv acts _ hm1
+        have hg2 := Good.runEnv acts _ hgenter.stopPhase
+        have hf2 : (ActixNet.Worker.runEnv (ActixNet.Worker.stopPhase (emit s [.enter])).1 acts).1.finished = false := by
+          rw [runEnv_finished]; exact hf1
+        have hm3 := hm2.piece (Piece.of_arm hg2 hf2) hf2
+        obtain ⟨g1, g2⟩ := hg2.arm hf2
+        split
+        · rename_i hb; exact More.pollW fuel _ hm3 g1 (g2 hb)
+        · exact hm3
+  | _ => exact h.step _ (by intro fuel; simp)
+
+theorem More.init (cfg : Cfg) : More (init cfg) :=
+  ⟨fun e he => by simp [ActixNet.Worker.init] at he, rfl, fun hf => by simp [ActixNet.Worker.init] at hf⟩
+
+theorem More.run (ops : List Op) : ∀ (s : St), More s → Good s → More (run s ops) := by
+  induction ops with
+  | nil => intro s h _; exact h
+  | cons o os ih => intro s h hg; exact ih _ (h.stepY hg o) (hg.stepY o)
 
 
 end ActixNet.Worker
